@@ -75,6 +75,15 @@ func (tm *typesMap) TypeString(typ types.Type) string {
 }
 
 func (tm *typesMap) FieldStrings(fields []*types.Var) ([]string, error) {
+	if len(fields) < 2 {
+		// gofmt keeps a struct with less than two fields on a single line
+		ss := make([]string, len(fields))
+		for i := range fields {
+			one := []byte(tm.TypeString(types.NewStruct(fields[i:i+1], nil)))
+			ss[i] = string(bytes.TrimSuffix(bytes.TrimPrefix(one, []byte("struct{")), []byte("}")))
+		}
+		return ss, nil
+	}
 	strct := types.NewStruct(fields, nil)
 	strctStr, err := format.Source([]byte("var a " + tm.TypeString(strct)))
 	if err != nil {
